@@ -188,6 +188,40 @@ def randNP (g : Gen) : NP × Gen :=
   else if k ≤ 4 then (.majMin a b, g)
   else (.full a b c p q, g)
 
+/-- a partial near a base triple: the same numbers (sometimes one more), any shape, any tag — so that
+the comparators of one alternative meet after desugaring (`^0.0` next to `>=0.0.0-alpha`) -/
+def randNPnear (g : Gen) (a b c : Nat) : NP × Gen :=
+  let (k, g) := g.below 10
+  let (da, g) := g.below 5
+  let (db, g) := g.below 5
+  let (dc, g) := g.below 5
+  let (p, g) := g.pick tagPool
+  let (q, g) := g.pick buildPool
+  let a' := if da == 0 then a + 1 else a
+  let b' := if db == 0 then b + 1 else b
+  let c' := if dc == 0 then c + 1 else c
+  if k == 0 then (.any, g)
+  else if k ≤ 2 then (.maj a', g)
+  else if k ≤ 4 then (.majMin a' b', g)
+  else (.full a' b' c' p q, g)
+
+def randSimpleNear (g : Gen) (a b c : Nat) : Simple × Gen :=
+  let (k, g) := g.below 12
+  let (p, g) := randNPnear g a b c
+  if k ≤ 2 then (.bare p, g)
+  else if k ≤ 4 then (.tilde p, g)
+  else if k ≤ 6 then (.caret p, g)
+  else
+    let (o, g) := g.pick [Op.lt, .le, .gt, .ge, .eq, .lt, .le, .gt, .ge]
+    (.prim o p, g)
+
+def randSimplesNear (g : Gen) (a b c : Nat) : Nat → List Simple × Gen
+  | 0 => ([], g)
+  | n + 1 =>
+    let (s, g) := randSimpleNear g a b c
+    let (rest, g) := randSimplesNear g a b c n
+    (s :: rest, g)
+
 def garbagePool : List (List Char) :=
   ["foo".toList, "1.y".toList, ">=1.y".toList, "1.2.3.4".toList, "1.2beta4".toList, ">>1".toList, "1.".toList]
 
@@ -218,6 +252,15 @@ def randAlt (g : Gen) (garbage : Bool) : Alt × Gen :=
     (.hyphen a b, g)
   else
     let (n, g) := g.pick [1, 1, 1, 1, 2, 2, 2, 3, 3, 4, 6]
+    let (near, g) := g.below 3
+    if near == 0 then
+      -- comparators around one base triple (zeros are likely)
+      let (a, g) := g.pick [0, 0, 0, 1, 1, 2, 10]
+      let (b, g) := g.pick [0, 0, 0, 1, 1, 2, 10]
+      let (c, g) := g.pick [0, 0, 0, 1, 1, 2, 10]
+      let (l, g) := randSimplesNear g a b c (n + 1)
+      (.simples l, g)
+    else
     let (l, g) := randSimples g garbage n
     (.simples l, g)
 
